@@ -11,7 +11,7 @@
     is Python's behaviour for alias-free object graphs, which is what the
     modelled classes build (the translator refuses anything else). *)
 From Coq Require Import String Ascii List ZArith NArith Bool DecimalString.
-From NX Require Import Bytes PyStruct Crc Utf8.
+From NX Require Import Bytes PyStruct Crc Utf8 Rn53.
 Import ListNotations.
 Open Scope string_scope.
 Open Scope list_scope.
@@ -34,7 +34,9 @@ Inductive pv :=
   | PBuiltin (name : string)                 (* builtin function *)
   | PFunc (name : string)                    (* module-level function of the program *)
   | PCrc (name : string)                     (* crcmod CRC function *)
-  | PF64 (bits : N).                         (* float, by bit pattern *)
+  | PF64 (bits : N)                          (* non-finite float, by bit pattern *)
+  | PDy (num e : Z)                          (* finite float: the dyadic rational num / 2^e, normalised *)
+  | PDict (l : list (pv * pv)).              (* insertion-ordered dictionary *)
 
 Inductive res (A : Type) :=
   | Ok (a : A)
@@ -75,6 +77,8 @@ Inductive expr :=
   | EIf (c a b : expr)
   | EFStr (parts : exprs)
   | EComp (k : compkind) (elt : expr) (x : string) (iter : expr)
+  | EDict (ks vs : exprs)
+  | EStar (e : expr)                         (* only as a call argument *)
 with exprs := Enil | Econs (e : expr) (es : exprs)
 with kwargs := Knil | Kcons (k : string) (e : expr) (ks : kwargs)
 with cmps := Cnil | Ccons (op : cmpop) (e : expr) (cs : cmps)
@@ -83,7 +87,10 @@ with oexpr := ONone | OSome (e : expr).
 Inductive target :=
   | TName (x : string)
   | TAttr (e : expr) (a : string)
-  | TNames (xs : list string).
+  | TNames (xs : list string)
+  | TIndex (e i : expr)                      (* x[i] = v *)
+  | TRaw (e k : expr)                        (* e.__dict__[k] = v : store bypassing __setattr__ *)
+  | TDyn (e k : expr).                       (* setattr(e, k, v) *)
 
 Inductive stmt :=
   | SAssign (t : target) (e : expr)
@@ -154,9 +161,64 @@ Definition truthy (v : pv) : bool :=
   | PBytes l => negb (Nat.eqb (List.length l) 0)
   | PTuple l | PList l | PSet l => negb (Nat.eqb (List.length l) 0)
   | PEnum _ _ z true => negb (z =? 0)
-  | PF64 b => negb (N.eqb b 0 || N.eqb b 9223372036854775808)
+  | PF64 b => true
+  | PDy n _ => negb (n =? 0)
+  | PDict l => negb (Nat.eqb (List.length l) 0)
   | _ => true
   end.
+
+(** a number: an integer or a finite float; both are dyadic rationals num / 2^e *)
+Definition as_num (v : pv) : option (Z * Z * bool) :=   (* num, e, is-float *)
+  match v with
+  | PDy n e => Some (n, e, true)
+  | _ => match as_int v with Some z => Some (z, 0, false) | None => None end
+  end.
+
+(** compare num1/2^e1 with num2/2^e2 *)
+Definition dy_align (n1 e1 n2 e2 : Z) : Z * Z :=
+  let m := Z.max e1 e2 in (n1 * 2 ^ (m - e1), n2 * 2 ^ (m - e2)).
+
+(** a finite double as a dyadic: exact iff it has at most 53 significant bits and a
+    representable exponent; the interpreter only produces floats through these two *)
+Definition fits_double (n e : Z) : bool :=
+  (n =? 0) || ((Z.log2 (Z.abs n) + 1 <=? 53) && (-1022 <=? Z.log2 (Z.abs n) - e) && (Z.log2 (Z.abs n) - e <=? 1023)).
+
+Definition mk_float (n e : Z) : option pv :=
+  let '(n', e') := dyad_norm n e in
+  if fits_double n' e' then Some (PDy n' e') else None.
+
+(** float(z) *)
+Definition float_of_int (z : Z) : option pv := mk_float (rn53 z) 0.
+
+Definition f64_to_pv (bits : N) : pv :=
+  let b := Z.of_N bits in
+  let sign := Z.shiftr b 63 in
+  let ex := Z.land (Z.shiftr b 52) 2047 in
+  let man := Z.land b (2 ^ 52 - 1) in
+  if ex =? 2047 then PF64 bits
+  else
+    let m := if ex =? 0 then man else man + 2 ^ 52 in
+    let e := if ex =? 0 then 1074 else 1075 - ex in
+    let '(n', e') := dyad_norm (if sign =? 1 then - m else m) e in PDy n' e'.
+
+Definition f32_to_pv (bits : N) : pv :=
+  let b := Z.of_N bits in
+  let sign := Z.shiftr b 31 in
+  let ex := Z.land (Z.shiftr b 23) 255 in
+  let man := Z.land b (2 ^ 23 - 1) in
+  if ex =? 255 then PF64 (Z.to_N (Z.lor (Z.shiftl sign 63) (Z.lor (Z.shiftl 2047 52) (Z.shiftl man 29))))
+  else
+    let m := if ex =? 0 then man else man + 2 ^ 23 in
+    let e := if ex =? 0 then 149 else 150 - ex in
+    let '(n', e') := dyad_norm (if sign =? 1 then - m else m) e in PDy n' e'.
+
+(** round(): half to even, of a dyadic *)
+Definition dy_round (n e : Z) : Z :=
+  if e <=? 0 then n * 2 ^ (- e) else
+  let q := Z.shiftr n e in                (* floor *)
+  let r := n - Z.shiftl q e in            (* 0 <= r < 2^e *)
+  let half := 2 ^ (e - 1) in
+  if (half <? r) || ((r =? half) && Z.odd q) then q + 1 else q.
 
 Definition bytes_eqb (a b : bytes) : bool :=
   Nat.eqb (List.length a) (List.length b) && forallb (fun p => N.eqb (fst p) (snd p)) (combine a b).
@@ -173,8 +235,8 @@ Fixpoint py_eq (a b : pv) {struct a} : option bool :=
         end
     | _, _ => Some false
     end in
-  match as_int a, as_int b with
-  | Some x, Some y => Some (x =? y)
+  match as_num a, as_num b with
+  | Some (x, ex, _), Some (y, ey, _) => let '(p, q) := dy_align x ex y ey in Some (p =? q)
   | _, _ =>
     match a, b with
     | PNone, PNone => Some true
@@ -187,6 +249,7 @@ Fixpoint py_eq (a b : pv) {struct a} : option bool :=
     | PF64 _, _ | _, PF64 _ => None
     | PObj _ _, _ | _, PObj _ _ => None
     | PSet _, _ | _, PSet _ => None
+    | PDict _, _ | _, PDict _ => None
     | _, _ => Some false
     end
   end.
@@ -234,10 +297,41 @@ Definition binop_int (op : binop) (x y : Z) : res pv :=
   | ODiv => Unsupported "true division"
   end.
 
+
+(** float arithmetic is defined where the result is exact (or an int -> float
+    conversion followed by an exact operation): scaling by powers of two *)
+Definition binop_float (op : binop) (x ex y ey : Z) (fx fy : bool) : res pv :=
+  (* operands converted to float first, as CPython does *)
+  let cx := if fx then Some (x, ex) else match float_of_int x with Some (PDy n e) => Some (n, e) | _ => None end in
+  let cy := if fy then Some (y, ey) else match float_of_int y with Some (PDy n e) => Some (n, e) | _ => None end in
+  match cx, cy with
+  | Some (x, ex), Some (y, ey) =>
+      match op with
+      | OMul =>
+          if (Z.abs x =? 1) || (Z.abs y =? 1) || (x =? 0) || (y =? 0)
+          then match mk_float (x * y) (ex + ey) with Some v => Ok v | None => Unsupported "float range" end
+          else Unsupported "inexact float product"
+      | ODiv =>
+          if y =? 0 then Exc "ZeroDivisionError"
+          else if Z.abs y =? 1
+          then match mk_float (x * y) (ex - ey) with Some v => Ok v | None => Unsupported "float range" end
+          else Unsupported "inexact float quotient"
+      | _ => Unsupported "float operator"
+      end
+  | _, _ => Unsupported "int too large for float"
+  end.
+
 Definition py_binop (op : binop) (a b : pv) : res pv :=
   match as_int a, as_int b with
-  | Some x, Some y => binop_int op x y
+  | Some x, Some y =>
+      match op with
+      | ODiv => binop_float op x 0 y 0 false false
+      | _ => binop_int op x y
+      end
   | _, _ =>
+    match as_num a, as_num b with
+    | Some (x, ex, fx), Some (y, ey, fy) => binop_float op x ex y ey fx fy
+    | _, _ =>
     match op, a, b with
     | OAdd, PBytes s, PBytes t => Ok (PBytes (s ++ t))
     | OAdd, PStr s, PStr t => Ok (PStr (String.append s t))
@@ -245,6 +339,7 @@ Definition py_binop (op : binop) (a b : pv) : res pv :=
     | OAdd, PTuple s, PTuple t => Ok (PTuple (s ++ t))
     | OAdd, _, _ => Exc "TypeError"
     | _, _, _ => Unsupported "binop"
+    end
     end
   end.
 
@@ -280,9 +375,9 @@ Definition py_cmp (op : cmpop) (a b : pv) : res bool :=
               end;
       Ok (match op with CIn => r | _ => negb r end)
   | _ =>
-      match as_int a, as_int b with
-      | Some x, Some y => Ok (cmp_int op x y)
-      | _, _ => Unsupported "ordering of non-integers"
+      match as_num a, as_num b with
+      | Some (x, ex, _), Some (y, ey, _) => let '(p, q) := dy_align x ex y ey in Ok (cmp_int op p q)
+      | _, _ => Unsupported "ordering of non-numbers"
       end
   end.
 
@@ -328,14 +423,15 @@ Definition py_slice (v : pv) (lo hi : option Z) : res pv :=
   end.
 
 (** struct: PyLite values <-> PyStruct values *)
-Definition to_sv (v : pv) : option PyStruct.value :=
+Definition to_sv (v : pv) : res PyStruct.value :=
   match v with
-  | PInt z => Some (VInt z)
-  | PEnum _ _ z true => Some (VInt z)
-  | PBool b => Some (VBool b)
-  | PBytes l => Some (VBytes l)
-  | PF64 b => Some (VF64 b)
-  | _ => None
+  | PInt z => Ok (VInt z)
+  | PEnum _ _ z true => Ok (VInt z)
+  | PBool b => Ok (VBool b)
+  | PBytes l => Ok (VBytes l)
+  | PF64 b => Ok (VF64 b)
+  | PDy _ _ => Unsupported "packing a float"
+  | _ => Exc "struct.error"
   end.
 
 Definition of_sv (v : PyStruct.value) : pv :=
@@ -343,8 +439,14 @@ Definition of_sv (v : PyStruct.value) : pv :=
   | VInt z => PInt z
   | VBool b => PBool b
   | VBytes l => PBytes l
-  | VF32 b => PObj "$f32" [("bits", PInt (Z.of_N b))]   (* a float read from 4 bytes, kept as its bit pattern *)
-  | VF64 b => PF64 b
+  | VF32 b => f32_to_pv b
+  | VF64 b => f64_to_pv b
+  end.
+
+Fixpoint map_res {A B} (f : A -> res B) (l : list A) : res (list B) :=
+  match l with
+  | [] => Ok []
+  | x :: r => do y <- f x; do ys <- map_res f r; Ok (y :: ys)
   end.
 
 Fixpoint map_opt {A B} (f : A -> option B) (l : list A) : option (list B) :=
@@ -360,10 +462,8 @@ Definition struct_pack (args : list pv) : res pv :=
       | None => Exc "struct.error"
       | Some fm =>
           if negb (native_safe fm) then Unsupported "native alignment" else
-          match map_opt to_sv vs with
-          | None => Exc "struct.error"
-          | Some svs => match pack fm svs with Some b => Ok (PBytes b) | None => Exc "struct.error" end
-          end
+          do svs <- map_res to_sv vs;
+          match pack fm svs with Some b => Ok (PBytes b) | None => Exc "struct.error" end
       end
   | _ => Unsupported "struct.pack arguments"
   end.
@@ -417,14 +517,21 @@ Definition iter_list (v : pv) : res (list pv) :=
   match v with
   | PList l | PTuple l | PSet l => Ok l
   | PBytes l => Ok (map (fun b => PInt (Z.of_N b)) l)
+  | PDict l => Ok (map fst l)
   | _ => Unsupported "iteration"
   end.
+
+(** text is kept as its UTF-8 bytes *)
+Definition str_bytes (s : string) : bytes := map N_of_ascii (String.list_ascii_of_string s).
+Definition bytes_str (b : bytes) : string := String.string_of_list_ascii (map ascii_of_N b).
+Definition str_len (s : string) : Z := zlen (List.filter (fun b => negb (is_cont b)) (str_bytes s)).
 
 Definition py_len (v : pv) : res pv :=
   match v with
   | PBytes l => Ok (PInt (zlen l))
   | PList l | PTuple l | PSet l => Ok (PInt (zlen l))
-  | PStr s => Ok (PInt (Z.of_nat (String.length s)))
+  | PStr s => Ok (PInt (str_len s))
+  | PDict l => Ok (PInt (zlen l))
   | _ => Exc "TypeError"
   end.
 
@@ -444,7 +551,7 @@ Definition is_instance (v : pv) (cls : string) : option bool :=
   end.
 
 Definition builtin_names : list string :=
-  ["len"; "bytes"; "int"; "bool"; "str"; "tuple"; "list"; "set"; "range"; "isinstance"; "hex"].
+  ["len"; "bytes"; "int"; "bool"; "str"; "tuple"; "list"; "set"; "range"; "isinstance"; "enumerate"; "round"; "float"; "getattr"].
 Definition builtin_types : list string := ["tuple"; "list"; "int"; "bool"; "str"; "bytes"; "set"].
 Definition module_names : list string := ["struct"; "crcmod"].
 
@@ -455,6 +562,10 @@ Definition call_builtin (P : prog) (name : string) (args : list pv) : res pv :=
     | [] => Ok (PBytes [])
     | [PBytes l] => Ok (PBytes l)
     | [PInt n] => if n <? 0 then Exc "ValueError" else Ok (PBytes (repeat 0%N (Z.to_nat n)))
+    | [PStr s] => Exc "TypeError"
+    | [PStr s; PStr enc] =>
+        if String.eqb enc "utf-8" || String.eqb enc "utf" || String.eqb enc "utf8" then Ok (PBytes (str_bytes s))
+        else Unsupported "bytes(str, encoding)"
     | [v] => do l <- iter_list v; do b <- bytes_of_ints l; Ok (PBytes b)
     | _ => Unsupported "bytes()"
     end
@@ -485,6 +596,27 @@ Definition call_builtin (P : prog) (name : string) (args : list pv) : res pv :=
                 | _, _ => Exc "TypeError" end
     | _ => Unsupported "range()"
     end
+  else if String.eqb name "enumerate" then
+    match args with
+    | [v] => do l <- iter_list v;
+             Ok (PList (map (fun kv => PTuple [PInt (Z.of_nat (fst kv)); snd kv]) (combine (seq 0 (List.length l)) l)))
+    | _ => Unsupported "enumerate()"
+    end
+  else if String.eqb name "round" then
+    match args with
+    | [v] => match as_num v with
+             | Some (n, e, _) => Ok (PInt (dy_round n e))
+             | None => Exc "TypeError" end
+    | _ => Unsupported "round()"
+    end
+  else if String.eqb name "float" then
+    match args with
+    | [PDy n e] => Ok (PDy n e)
+    | [v] => match as_int v with
+             | Some z => match float_of_int z with Some f => Ok f | None => Exc "OverflowError" end
+             | None => Unsupported "float()" end
+    | _ => Unsupported "float()"
+    end
   else if String.eqb name "isinstance" then
     match args with
     | [v; PCls c] => do r <- opt_res (is_instance v c) "isinstance"; Ok (PBool r)
@@ -514,7 +646,56 @@ Definition value_method (r : pv) (m : string) (args : list pv) (kws : list (stri
         | [PBytes [b]] => Ok (PInt (match find_byte b l with Some i => Z.of_nat i | None => -1 end), r)
         | _ => Unsupported "bytes.find"
         end
+      else if String.eqb m "decode" then
+        match args with
+        | [] =>
+            match utf8_dec l with
+            | Some _ => Ok (PStr (bytes_str l), r)
+            | None =>
+                match lookup "errors" kws with
+                | None => Exc "UnicodeDecodeError"
+                | Some _ => Unsupported "lossy decode"
+                end
+            end
+        | _ => Unsupported "bytes.decode"
+        end
       else Unsupported ("bytes." ++ m)
+  | PStr t =>
+      if String.eqb m "split" then
+        match args with
+        | [PStr sep] =>
+            match str_bytes sep with
+            | [c] =>
+                let fix go (cur : bytes) (l : bytes) : list pv :=
+                  match l with
+                  | [] => [PStr (bytes_str (rev cur))]
+                  | b :: rest => if N.eqb b c then PStr (bytes_str (rev cur)) :: go [] rest else go (b :: cur) rest
+                  end in
+                Ok (PList (go [] (str_bytes t)), r)
+            | _ => Unsupported "str.split separator"
+            end
+        | _ => Unsupported "str.split"
+        end
+      else if String.eqb m "encode" then
+        match args with [] => Ok (PBytes (str_bytes t), r) | _ => Unsupported "str.encode" end
+      else Unsupported ("str." ++ m)
+  | PDict l =>
+      if String.eqb m "get" then
+        match args with
+        | [k] =>
+            (fix go (l : list (pv * pv)) : res (pv * pv) :=
+               match l with
+               | [] => Ok (PNone, r)
+               | (k', v) :: rest =>
+                   match py_eq k k' with
+                   | Some true => Ok (v, r)
+                   | Some false => go rest
+                   | None => Unsupported "dict key"
+                   end
+               end) l
+        | _ => Unsupported "dict.get"
+        end
+      else Unsupported ("dict." ++ m)
   | PList l =>
       if String.eqb m "append" then
         match args with [v] => Ok (PNone, PList (l ++ [v])) | _ => Exc "TypeError" end
@@ -523,6 +704,7 @@ Definition value_method (r : pv) (m : string) (args : list pv) (kws : list (stri
   end.
 
 (** * Classes *)
+Definition mro_depth : nat := 6.
 Fixpoint find_class (cs : list class) (n : string) : option class :=
   match cs with
   | [] => None
@@ -574,41 +756,88 @@ Fixpoint find_const (P : prog) (depth : nat) (cls a : string) : option expr :=
       end
   end.
 
-Definition mro_depth : nat := 6.
-
 Fixpoint enum_by_value (ms : list (string * Z)) (z : Z) : option string :=
   match ms with
   | [] => None
   | (n, v) :: r => if v =? z then Some n else enum_by_value r z
   end.
 
-(** l-value paths *)
-Fixpoint path_get (e : env) (p : expr) : option pv :=
+(** l-value paths: names, attribute chains, list elements.  A property whose
+    body is exactly [return self.<field>] is an alias of that field. *)
+Definition prop_alias (f : func) : option string :=
+  if f_prop f then
+    match f_body f with
+    | Scons (SReturn (OSome (EAttr (EName "self") fld))) Snil => Some fld
+    | _ => None
+    end
+  else None.
+
+Definition field_name (P : prog) (cls : string) (fs : list (string * pv)) (a : string) : option string :=
+  match lookup a fs with
+  | Some _ => Some a
+  | None =>
+      match find_method P mro_depth cls a with
+      | Some f => match prop_alias f with
+                  | Some fld => match lookup fld fs with Some _ => Some fld | None => None end
+                  | None => None end
+      | None => None
+      end
+  end.
+
+Definition idx_val (e : env) (i : expr) : option Z :=
+  match i with
+  | EConst v => as_int v
+  | EName x => match lookup x e with Some v => as_int v | None => None end
+  | _ => None
+  end.
+
+Fixpoint list_set {A} (l : list A) (k : nat) (v : A) : list A :=
+  match l, k with
+  | [], _ => []
+  | _ :: r, O => v :: r
+  | x :: r, S k' => x :: list_set r k' v
+  end.
+
+Fixpoint path_get (P : prog) (e : env) (p : expr) : option pv :=
   match p with
   | EName x => lookup x e
   | EAttr q a =>
-      match path_get e q with
-      | Some (PObj _ fs) => lookup a fs
+      match path_get P e q with
+      | Some (PObj c fs) => match field_name P c fs a with Some f => lookup f fs | None => None end
       | _ => None
+      end
+  | EIndex q i =>
+      match path_get P e q, idx_val e i with
+      | Some (PList l), Some z => match norm_index (List.length l) z with
+                                  | Some k => nth_error l k | None => None end
+      | _, _ => None
       end
   | _ => None
   end.
 
-Fixpoint path_set (e : env) (p : expr) (v : pv) : option env :=
+Fixpoint path_set (P : prog) (e : env) (p : expr) (v : pv) : option env :=
   match p with
   | EName x => Some (update x v e)
   | EAttr q a =>
-      match path_get e q with
-      | Some (PObj c fs) => path_set e q (PObj c (update a v fs))
+      match path_get P e q with
+      | Some (PObj c fs) =>
+          let f := match field_name P c fs a with Some f => f | None => a end in
+          path_set P e q (PObj c (update f v fs))
       | _ => None
+      end
+  | EIndex q i =>
+      match path_get P e q, idx_val e i with
+      | Some (PList l), Some z => match norm_index (List.length l) z with
+                                  | Some k => path_set P e q (PList (list_set l k v)) | None => None end
+      | _, _ => None
       end
   | _ => None
   end.
 
-(** write the receiver back only where it is a path of plain fields *)
-Definition write_back (e : env) (p : expr) (v : pv) : env :=
-  match path_get e p with
-  | Some _ => match path_set e p v with Some e' => e' | None => e end
+(** write the receiver back only where it is such a path *)
+Definition write_back (P : prog) (e : env) (p : expr) (v : pv) : env :=
+  match path_get P e p with
+  | Some _ => match path_set P e p v with Some e' => e' | None => e end
   | None => e
   end.
 
@@ -648,10 +877,61 @@ Section Interp.
   (** [callf f args kws] runs a function of the program at one less fuel *)
   Variable callf : func -> list pv -> list (string * pv) -> res (pv * option pv).
 
+  (** attribute read; a property runs its getter *)
+  Definition get_attr (v : pv) (a : string) : res pv :=
+    match v with
+    | PObj c fs =>
+        match lookup a fs with
+        | Some x => Ok x
+        | None =>
+            match find_method P mro_depth c a with
+            | Some f => if f_prop f then do r <- callf f [v] []; Ok (fst r)
+                        else Unsupported "bound method as a value"
+            | None =>
+                match find_const P mro_depth c a with
+                | Some (EConst k) => Ok k
+                | _ => Exc "AttributeError"
+                end
+            end
+        end
+    | PCls c =>
+        match find_class (p_classes P) c with
+        | None => Unsupported "class attribute"
+        | Some cl =>
+            match c_enum cl with
+            | Some (isint, ms) =>
+                match lookup a ms with
+                | Some z => Ok (PEnum c a z isint)
+                | None => Exc "AttributeError"
+                end
+            | None =>
+                match find_const P mro_depth c a with
+                | Some (EConst k) => Ok k
+                | _ => Exc "AttributeError"
+                end
+            end
+        end
+    | PEnum c n z _ =>
+        if String.eqb a "value" then Ok (PInt z)
+        else if String.eqb a "name" then Ok (PStr n)
+        else Exc "AttributeError"
+    | PMod m =>
+        if String.eqb m "crcmod" && String.eqb a "predefined" then Ok (PMod "crcmod.predefined")
+        else if String.eqb m "struct" && String.eqb a "error" then Ok (PCls "struct.error")
+        else Ok (PBuiltin (m ++ "." ++ a))
+    | _ => Unsupported ("attribute " ++ a)
+    end.
+
   (** calling a value; returns the result and, for a method, the receiver afterwards *)
   Definition call_value (fv : pv) (args : list pv) (kws : list (string * pv)) : res pv :=
     match fv with
-    | PBuiltin n => call_builtin P n args
+    | PBuiltin n =>
+        if String.eqb n "getattr" then
+          match args with
+          | [v; PStr a] => get_attr v a
+          | _ => Unsupported "getattr()"
+          end
+        else call_builtin P n args
     | PFunc n =>
         match find_func (p_funcs P) n with
         | Some f => do r <- callf f args kws; Ok (fst r)
@@ -708,51 +988,6 @@ Section Interp.
     | _ => Exc "TypeError"
     end.
 
-  (** attribute read; a property runs its getter *)
-  Definition get_attr (v : pv) (a : string) : res pv :=
-    match v with
-    | PObj c fs =>
-        match lookup a fs with
-        | Some x => Ok x
-        | None =>
-            match find_method P mro_depth c a with
-            | Some f => if f_prop f then do r <- callf f [v] []; Ok (fst r)
-                        else Unsupported "bound method as a value"
-            | None =>
-                match find_const P mro_depth c a with
-                | Some (EConst k) => Ok k
-                | _ => Exc "AttributeError"
-                end
-            end
-        end
-    | PCls c =>
-        match find_class (p_classes P) c with
-        | None => Unsupported "class attribute"
-        | Some cl =>
-            match c_enum cl with
-            | Some (isint, ms) =>
-                match lookup a ms with
-                | Some z => Ok (PEnum c a z isint)
-                | None => Exc "AttributeError"
-                end
-            | None =>
-                match find_const P mro_depth c a with
-                | Some (EConst k) => Ok k
-                | _ => Exc "AttributeError"
-                end
-            end
-        end
-    | PEnum c n z _ =>
-        if String.eqb a "value" then Ok (PInt z)
-        else if String.eqb a "name" then Ok (PStr n)
-        else Exc "AttributeError"
-    | PMod m =>
-        if String.eqb m "crcmod" && String.eqb a "predefined" then Ok (PMod "crcmod.predefined")
-        else if String.eqb m "struct" && String.eqb a "error" then Ok (PCls "struct.error")
-        else Ok (PBuiltin (m ++ "." ++ a))
-    | _ => Unsupported ("attribute " ++ a)
-    end.
-
   Definition resolve_name (e : env) (x : string) : res pv :=
     match lookup x e with
     | Some v => Ok v
@@ -807,7 +1042,7 @@ Section Interp.
             do (vs, e2) <- eval_list e1 args;
             do (ks, e3) <- eval_kws e2 kws;
             do (x, r') <- call_method_value r m vs ks;
-            Ok (x, write_back e3 recv r')
+            Ok (x, write_back P e3 recv r')
         | _ =>
             do (fv, e1) <- eval e f;
             do (vs, e2) <- eval_list e1 args;
@@ -847,10 +1082,18 @@ Section Interp.
                     | y :: r => do (v, _) <- eval ((n, y) :: e1) elt; do t <- go r; Ok (v :: t)
                     end) l;
         Ok (match k with KTuple => PTuple vs | KList => PList vs end, e1)
+    | EDict ks vs =>
+        do (kl, e1) <- eval_list e ks;
+        do (vl, e2) <- eval_list e1 vs;
+        if Nat.eqb (List.length kl) (List.length vl) then Ok (PDict (combine kl vl), e2)
+        else Unsupported "dict literal"
+    | EStar _ => Unsupported "starred expression"
     end
   with eval_list (e : env) (xs : exprs) {struct xs} : res (list pv * env) :=
     match xs with
     | Enil => Ok ([], e)
+    | Econs (EStar x) r =>
+        do (v, e1) <- eval e x; do l <- iter_list v; do (vs, e2) <- eval_list e1 r; Ok (l ++ vs, e2)
     | Econs x r => do (v, e1) <- eval e x; do (vs, e2) <- eval_list e1 r; Ok (v :: vs, e2)
     end
   with eval_kws (e : env) (ks : kwargs) {struct ks} : res (list (string * pv) * env) :=
@@ -877,25 +1120,68 @@ Section Interp.
         end
     end.
 
+  Definition assign_attr (e : env) (q : expr) (a : string) (v : pv) : res env :=
+    match path_get P e q with
+    | Some (PObj c fs) =>
+        match find_method P mro_depth c "__setattr__" with
+        | Some f =>
+            do r <- callf f [PObj c fs; PStr a; v] [];
+            match snd r with
+            | Some s => match path_set P e q s with Some e' => Ok e' | None => Unsupported "assignment target" end
+            | None => Unsupported "__setattr__"
+            end
+        | None =>
+            match path_set P e (EAttr q a) v with
+            | Some e' => Ok e'
+            | None => Unsupported "assignment target"
+            end
+        end
+    | _ => Unsupported "assignment target"
+    end.
+
   Definition assign (e : env) (t : target) (v : pv) : res env :=
     match t with
     | TName x => Ok (update x v e)
-    | TAttr q a =>
-        match path_set e (EAttr q a) v with
-        | Some e' => Ok e'
-        | None => Unsupported "assignment target"
+    | TAttr q a => assign_attr e q a v
+    | TDyn q k =>
+        match k with
+        | EName x => match lookup x e with
+                     | Some (PStr a) => assign_attr e q a v
+                     | _ => Unsupported "setattr name" end
+        | EConst (PStr a) => assign_attr e q a v
+        | _ => Unsupported "setattr name"
         end
     | TNames xs =>
         do l <- iter_list v;
         if negb (Nat.eqb (List.length l) (List.length xs)) then Exc "ValueError" else
         Ok (fold_left (fun acc xv => update (fst xv) (snd xv) acc) (combine xs l) e)
+    | TIndex q i =>
+        match path_get P e q, idx_val e i with
+        | Some (PList l), Some z =>
+            match norm_index (List.length l) z with
+            | Some _ => match path_set P e (EIndex q i) v with Some e' => Ok e' | None => Unsupported "item target" end
+            | None => Exc "IndexError"
+            end
+        | _, _ => Unsupported "item target"
+        end
+    | TRaw q k =>
+        match idx_val e k, k with
+        | _, EName x =>
+            match lookup x e, path_get P e q with
+            | Some (PStr a), Some (PObj c fs) =>
+                match path_set P e q (PObj c (update a v fs)) with Some e' => Ok e' | None => Unsupported "raw target" end
+            | _, _ => Unsupported "raw target"
+            end
+        | _, _ => Unsupported "raw target"
+        end
     end.
 
   Definition target_expr (t : target) : option expr :=
     match t with
     | TName x => Some (EName x)
     | TAttr q a => Some (EAttr q a)
-    | TNames _ => None
+    | TIndex q i => Some (EIndex q i)
+    | TNames _ | TRaw _ _ | TDyn _ _ => None
     end.
 
   (** statements; [loopfuel] bounds the iterations of each while loop *)
